@@ -360,6 +360,13 @@ impl<'c, Param, Yield, Return> Coroutine<'c, Param, Yield, Return> {
             #[allow(clippy::missing_const_for_thread_local)]
             static STACK_INFOS: RefCell<VecDeque<StackInfo>> = const { RefCell::new(VecDeque::new()) };
         }
+        #[cfg(open_coroutine_verif)]
+        crate::common::verif::emit(|| {
+            format!(
+                r#""ev":"grow_thread","segs":{}"#,
+                STACK_INFOS.with(|s| s.borrow().len())
+            )
+        });
         if let Some(last_stack_info) = STACK_INFOS.with(|s| s.borrow().back().copied()) {
             let remaining_stack = psm::stack_pointer() as usize - last_stack_info.stack_bottom;
             if remaining_stack >= red_zone {
